@@ -171,6 +171,38 @@ func (p *Program) normaliseOnce(known map[string]bool, round int) (map[string][]
 			wrappedIn[cs.In.Root()] = true
 			continue
 		}
+		// `return A && H(x)` / `return A || H(x)`: the call is made only when A does not
+		// decide; written `if !(A) { return false }; return H(x)` it is a tail call
+		if cand.exprOnly == nil {
+			if be, isB := p.Parent(cs.In.File, cs.Call).(*ast.BinaryExpr); isB && be.Y == ast.Expr(cs.Call) && (be.Op == token.LAND || be.Op == token.LOR) {
+				if rs, isR := p.Parent(cs.In.File, be).(*ast.ReturnStmt); isR && len(rs.Results) == 1 && rs.Results[0] == ast.Expr(be) && !busyStmt[rs] {
+					switch p.Parent(cs.In.File, rs).(type) {
+					case *ast.BlockStmt, *ast.CaseClause, *ast.CommClause:
+						rstart, rend := file.Offset(rs.Pos()), file.Offset(rs.End())
+						overlap := false
+						for _, o := range edits[fname] {
+							if rstart < o.end && o.start < rend {
+								overlap = true
+							}
+						}
+						if !overlap {
+							busyStmt[rs] = true
+							xs := strings.ReplaceAll(string(b[file.Offset(be.X.Pos()):file.Offset(be.X.End())]), "\n", " ")
+							cstr := strings.ReplaceAll(string(b[file.Offset(cs.Call.Pos()):file.Offset(cs.Call.End())]), "\n", " ")
+							text := "if !(" + xs + ") { return false }; return " + cstr
+							if be.Op == token.LOR {
+								text = "if " + xs + " { return true }; return " + cstr
+							}
+							edits[fname] = append(edits[fname], textEdit{rstart, rend, text})
+							everInlined[cand.fs.Name] = true
+							wrappedIn[cs.In.Root()] = true
+							notes = append(notes, fmt.Sprintf("return with a short-circuit call of %s in %s at %s split into a guard and a tail call", cand.fs.Name, cs.In.Root().Name, p.PosStr(cs.Call.Pos())))
+							continue
+						}
+					}
+				}
+			}
+		}
 		// `go H(a, b)`: the arguments are evaluated now, the call runs in the goroutine:
 		// `go func(p0 A, p1 B) { H(p0, p1) }(a, b)`, whose call the next round inlines
 		if gs, isGo := p.Parent(cs.In.File, cs.Call).(*ast.GoStmt); isGo && gs.Call == cs.Call {
